@@ -140,12 +140,70 @@ def step1 (st : St) (ts : List String) : St × String :=
 
 /-- two object slots (current, other): `dup` copies the current object into the other slot (in the model an object is a
 value, so a copy / deepcopy / pickle round trip is the same value and later assignments cannot alias), `swap` exchanges -/
-def step (st : St × St) (ts : List String) : (St × St) × String :=
+def step2 (st : St × St) (ts : List String) : (St × St) × String :=
   match ts with
   | ["dup"] => ((st.1, st.1), "ok")
   | ["swap"] => ((st.2, st.1), "ok")
   | _ => let (s', o) := step1 st.1 ts; ((s', st.2), o)
 
+/-! polarised profile slot (round 6):
+  pnew <Class> <px> <py> <pz> <arg> <bits> …  -> ok | ValueError | ZeroDivisionError | …   (prunCtor)
+  pset <prop> <bits> ; ppol <px> <py> <pz>    -> ok | ValueError | ZeroDivisionError | noSuchSetter
+  pget <x> <y> <z>                            -> bits bits bits | none                      (get_polarization)
+  pdens <x> <y> <z> ; pgeom ; pnotified       -> as dens / geom / notified on the polarised object
+  norm <px> <py> <pz>                         -> bits bits bits | ZeroDivisionError         (Vector3D.normalise) -/
+abbrev PSt := Option (Cls × PObj Float)
+
+def presS : PRes → String
+  | .ok => "ok" | .valueError => "ValueError" | .zeroDivision => "ZeroDivisionError" | .noSuchSetter => "noSuchSetter"
+  | .notUnderstood => "notUnderstood"
+
+def v3S : Option (V3 Float) → String
+  | none => "none"
+  | some v => fFs [v.x, v.y, v.z]
+
+def stepP (st : PSt) (ts : List String) : Option (PSt × String) :=
+  match ts with
+  | "pnew" :: cls :: px :: py :: pz :: kv =>
+    match Cherab.Gen.LaserEdges.classes.find? (fun t => t.name == cls) with
+    | none => some (none, "noSuchClass")
+    | some t =>
+      let (o, r) := prunCtor extF t (argMap kv) { x := pF px, y := pF py, z := pF pz }
+      some (some (t, o), presS r)
+  | ["norm", px, py, pz] =>
+    some (st, match normalise extF { x := pF px, y := pF py, z := pF pz } with
+      | none => "ZeroDivisionError" | some v => fFs [v.x, v.y, v.z])
+  | ["pset", p, v] =>
+    match st with
+    | none => some (st, "noObject")
+    | some (t, o) => let (o', r) := pstep extF t o (.set p (pF v)); some (some (t, o'), presS r)
+  | ["ppol", px, py, pz] =>
+    match st with
+    | none => some (st, "noObject")
+    | some (t, o) => let (o', r) := pstep extF t o (.pol { x := pF px, y := pF py, z := pF pz }); some (some (t, o'), presS r)
+  | ["pget", x, y, z] =>
+    match st with
+    | none => some (st, "noObject")
+    | some (_, o) => some (st, v3S (getPolarization o (pF x) (pF y) (pF z)))
+  | ["pdens", x, y, z] =>
+    match st with
+    | none => some (st, "noObject")
+    | some (t, o) => some (st, fF (energyDensity extF t o.obj (pF x) (pF y) (pF z)))
+  | ["pgeom"] =>
+    match st with
+    | none => some (st, "noObject")
+    | some (t, o) => some (st, segS (geometry extF t o.obj))
+  | ["pnotified"] =>
+    match st with
+    | none => some (st, "noObject")
+    | some (_, o) => some (st, toString o.obj.notified)
+  | _ => none
+
+def step (st : (St × St) × PSt) (ts : List String) : ((St × St) × PSt) × String :=
+  match stepP st.2 ts with
+  | some (p', o) => ((st.1, p'), o)
+  | none => let (s', o) := step2 st.1 ts; ((s', st.2), o)
+
 def main : IO UInt32 := do
-  loop step (← IO.getStdin) (← IO.getStdout) ((none, none) : St × St)
+  loop step (← IO.getStdin) (← IO.getStdout) (((none, none), none) : (St × St) × PSt)
   return 0
